@@ -8,7 +8,7 @@ TraceLog == ndJsonDeserialize(TraceFile)
 
 VARIABLES l, st, hi     \* st: replica -> store; hi: replica -> highest version handed out / index applied
 vars == <<l, st, hi>>
-Reps == 1..4
+Reps == 1..4  \cup 11..14     \* (10 + r: the state of replica r pinned by PrepareSnapshot)
 
 Ev == TraceLog[l]
 IsEvent(name) == l <= Len(TraceLog) /\ Ev.ev = name /\ l' = l + 1
@@ -92,9 +92,15 @@ TSnap ==
   /\ st' = [st EXCEPT ![Ev.to] = st[Ev.from]]
   /\ hi' = [hi EXCEPT ![Ev.to] = hi[Ev.from]]
 
+\* PrepareSnapshot on replica Ev.rep: what is saved later - whatever is applied meanwhile - is THIS state
+TSPrepare ==
+  /\ IsEvent("sprepare")
+  /\ st' = [st EXCEPT ![Ev.rep + 10] = st[Ev.rep]]
+  /\ hi' = [hi EXCEPT ![Ev.rep + 10] = hi[Ev.rep]]
+
 TReset == IsEvent("reset") /\ st' = [r \in Reps |-> EmptyStore] /\ hi' = [r \in Reps |-> 0]
 
-TNext == TUpdate \/ TRSet \/ TRDel \/ TGet \/ TExists \/ TGetAll \/ TList \/ TSnap \/ TReset
+TNext == TUpdate \/ TRSet \/ TRDel \/ TGet \/ TExists \/ TGetAll \/ TList \/ TSnap \/ TSPrepare \/ TReset
 TSpec == TInit /\ [][TNext]_vars
 
 TraceAccepted ==
